@@ -454,7 +454,80 @@ def _oracle(case) -> Result:
     return r
 
 
-SUBS = {"files": oracle, "grid": oracle, "ifrange": oracle, "request": oracle, "mtime": oracle, "forms": oracle}
+def oracle_rewrite(case) -> Result:
+    """A short history on ONE path: the file is rewritten in place (same inode, same size) with a modification time a fraction
+    of a second later, inside the same whole second.  Its ETag changes; a request that still carries the OLD tag in If-Range must
+    get the whole current file, the new tag selects the slice.  (State kept between requests - caches keyed on whole-second stat
+    fields, memoised verdicts - shows here and nowhere else.)"""
+    r = Result()
+    size, rng = case["size"], case["range"]
+    lo, hi = case["slice"]
+    first, second = case["ifaces"]
+    base = 1_700_000_000 + case.get("second", 0)
+    global _DIR
+    if _DIR is None:
+        _DIR = tmpfiles.workdir("verif_c02_")
+    path = os.path.join(_DIR, f"rewrite-{case['ifaces'][0]}-{case['ifaces'][1]}-{size}.bin")
+    v1, v2 = pattern(size), bytes(reversed(pattern(size)))
+    ccase = {"range": rng, "chunk": case.get("chunk", 3)}
+
+    def put(content, frac):
+        mode = "r+b" if os.path.exists(path) else "wb"
+        with open(path, mode) as fh:  # in place: the inode stays
+            fh.write(content)
+        ns = int((base + frac) * 10**9)
+        os.utime(path, ns=(base * 10**9, ns))
+
+    def ask(iface, if_range):
+        cc = dict(ccase, range=rng if if_range != "plain" else None)
+        return answer(cc, "GET", iface, None if if_range in (None, "plain") else if_range, path)
+
+    ctx = f"{case!r}"
+    try:
+        put(v1, case["fracs"][0])
+        r1 = ask(first, "plain")
+        etag1 = hdr(r1, "etag")
+        a = ask(first, etag1)
+        if a.status_code != 206 or a.body != v1[lo:hi]:
+            r.fail("C02:rewrite:current-tag-not-honoured", f"{ctx}: Range + If-Range = current ETag {etag1!r} -> status {a.status_code}, body {a.body[:20]!r}")
+        put(v2, case["fracs"][1])
+        r2 = ask(second, "plain")
+        etag2 = hdr(r2, "etag")
+        if r2.status_code != 200 or r2.body != v2:
+            r.fail("C02:rewrite:plain-after-rewrite", f"{ctx}: plain GET after the rewrite -> status {r2.status_code}, {len(r2.body)} bytes")
+        if etag1 is not None and etag2 is not None and etag1 != etag2:
+            b = ask(second, etag1)
+            if b.status_code != 200 or b.body != v2:
+                r.fail(
+                    f"C02:rewrite:{second}:stale-tag-honoured",
+                    f"{ctx}: the file was rewritten (ETag {etag1!r} -> {etag2!r}); Range + If-Range = OLD tag -> status {b.status_code}, body {b.body[:20]!r} "
+                    f"(expected 200 with the whole current file)",
+                )
+            c = ask(second, etag2)
+            if c.status_code != 206 or c.body != v2[lo:hi]:
+                r.fail(f"C02:rewrite:{second}:new-tag-not-honoured", f"{ctx}: Range + If-Range = NEW tag -> status {c.status_code}, body {c.body[:20]!r}")
+            r.nontrivial = True
+        else:
+            r.label("etag-unchanged-by-rewrite")  # judged by C14, not here
+    finally:
+        try:
+            os.unlink(path)
+        except OSError:
+            pass
+    r.label(f"ifaces={first}->{second}")
+    r.weight = 5
+    return r
+
+
+def rewrite_cases():
+    for first in IFACES:
+        for second in IFACES:
+            for fracs in ((0.25, 0.75), (0.0, 0.5), (0.75, 0.25), (0.1, 0.100001)):
+                for k, (size, rng, sl) in enumerate(((12, "bytes=1-2", (1, 3)), (64, "bytes=-5", (59, 64)))):
+                    yield {"ifaces": [first, second], "fracs": list(fracs), "size": size, "range": rng, "slice": list(sl), "second": k}
+
+
+SUBS = {"files": oracle, "grid": oracle, "ifrange": oracle, "request": oracle, "mtime": oracle, "forms": oracle, "rewrite": oracle_rewrite}
 
 # ------------------------------------------------------------------------------------------
 
@@ -685,6 +758,8 @@ def run(rec, only=None):
     core.drive_cases(rec, "mtime", mtime_cases(quick), oracle)
     rec.exhaustive["mtime"] = True
     core.drive_cases(rec, "forms", forms_cases(quick), oracle)
+    core.drive_cases(rec, "rewrite", rewrite_cases(), oracle_rewrite)
+    rec.exhaustive["rewrite"] = True
     rec.exhaustive["forms"] = True
     if not quick:
         _retire_loop()  # the thorough budget is split over forked workers
